@@ -193,6 +193,14 @@ def run_check(tier, seed, nworkers=None, nruns=None, budget_s=None, evidence_pat
                 agg["samples"].append(msg["sample"])
             if "violation" in msg:
                 agg["violations"].append(msg)
+                if os.environ.get("SIM_STOP_AT_FIRST"):
+                    agg["stopped_at_first"] = True
+                    for wk in workers:
+                        try:
+                            wk.proc.kill()
+                        except OSError:
+                            pass
+                    break
         elif ty == "deadline":
             agg["deadline_hit"].append((w, msg["next_index"]))
         elif ty == "bye":
@@ -203,7 +211,7 @@ def run_check(tier, seed, nworkers=None, nruns=None, budget_s=None, evidence_pat
             agg["harness_errors"].append("worker %d printed: %s" % (w, msg["line"]))
         elif ty == "exit":
             live.discard(w)
-            if msg["code"] != 0:
+            if msg["code"] != 0 and not agg.get("stopped_at_first"):
                 agg["harness_errors"].append(
                     "worker %d exited with %s: %s" % (w, msg["code"],
                                                       "".join(workers[w].err)[-1500:]))
@@ -217,8 +225,13 @@ def run_check(tier, seed, nworkers=None, nruns=None, budget_s=None, evidence_pat
         snap.setdefault(h["snapshot_data"], []).append(w)
     h9 = None
     if len(snap) > 1:
+        ws = [v[0] for v in snap.values()]
+        a, b = agg["hello"][ws[0]]["snapshot_keys"], agg["hello"][ws[1]]["snapshot_keys"]
+        keys = sorted(k for k in set(a) | set(b) if a.get(k) != b.get(k))
         h9 = {"invariant": "H9", "function": None, "kind": "process-lifetime",
-              "detail": {"what": "data snapshot differs between process variants",
+              "detail": {"what": "public constants differ between process variants "
+                                 "(import order / hash seed / -O)",
+                         "keys": keys[:20],
                          "groups": {d: [vs[w] for w in ws] for d, ws in snap.items()}}}
     return agg, wall, h9, vs, n
 
